@@ -58,7 +58,11 @@ fn main() {
         }));
     }
     sink.merge(struct_sweep(&run, &targets, &magic_recs, 0, &sfx, 48, &extra));
-    for style in [1u8, 3, 4, 6, 7, 8] {
+    // the cross product of the hello fields (version x magic random x session id x cipher kind x compression x extension block)
+    for server in [true, false] {
+        sink.merge(grid_sweep(&run, &targets, 64, &|c, n| cat::hello_grid(server, false, thorough, c, n), &|m| cat::record(0x16, 0x0303, |w| { w.append(m); }), &extra));
+    }
+    for style in [1u8, 3, 4, 6, 7, 8, 10, 11] {
         use vcommon::en::with_fill_style as wfs;
         sink.merge(struct_sweep(&run, &targets, &wfs(style, || cat::tls_records(2, false)), 0, &sfx, 48, &extra));
     }
